@@ -156,6 +156,9 @@ CasesC03(lazy) ==
   \cup { Case(FsOf(<<Plain("a", 0, 1), Plain("a.b", 0, 2), WithParent("top", 0, 3, S("c"))>>,
                    << <<"hop", ExtAt(2, 0), "a.b." \o ExtAt(2, 0)>>, <<"c", ExtAt(2, 0), "hop." \o ExtAt(2, 0)>> >>),
               <<"top." \o ExtAt(3, 0)>>, FALSE, "/", "symlink2", Chains(<< <<"a", "a.b", "top">> >>)) : dummy \in {1} }
+  (* a link whose target has a LONGER name closes a cycle made of filename parents only: an error, not a loop *)
+  \cup { Case(FsOf(<<Plain("app.prod", 0, 1), Plain("app.prod.live", 0, 2)>>, << <<"app", "yaml", "app.prod.live." \o ExtAt(2, 0)>> >>),
+              <<inp>>, FALSE, "/", "symlinkcycle", Fails) : inp \in {"app.yaml", "app.prod." \o ExtAt(1, 0), "app.prod.live." \o ExtAt(2, 0)} }
   (* several inputs, left to right; with and without -P *)
   \cup { Case(FsOf(<<Plain("a", rot, 1), Plain("a.b", rot, 2), Plain("c", rot, 3), Plain("c.d", rot, 4)>>, <<>>),
               <<"a.b." \o ExtAt(2, rot), "c.d." \o ExtAt(4, rot)>>, sk, "/", "inputs",
@@ -267,6 +270,9 @@ Base04 == M("n" :> I("1") @@ "big" :> Big @@ "min" :> I("-9223372036854775808") 
             @@ "tiny" :> F("5e-324") @@ "huge" :> F("1.7976931348623157e+308") @@ "sum" :> F("0.30000000000000004")
             @@ "list" :> L(<<Item(I("1"), "a"), Item(I("2147483648"), "b"), Item(F("2.5"), "c"), Item(Big, "d"), Item(F("2"), "e")>>)
             @@ "w" :> F("3")        \* a whole-valued double: 3.0 is not the integer 3, in any format
+            (* numbers below a list that holds nothing but lists *)
+            @@ "grid" :> L(<<L(<<I("1"), I("2")>>), L(<<I("3"), I("4")>>), L(<<F("2.5")>>)>>)
+            @@ "cells" :> L(<<L(<<Mk2("$repeat", I("2"), "c", S("$repeat"))>>)>>)
             @@ "name" :> S("x"))
 Uppers04 == {
   Single("list", L(<<Mk2("$match", Single("id", I("2147483648")), "v", S("B"))>>)),
@@ -283,7 +289,10 @@ Uppers04 == {
   Single("w", F("3")), Single("w", I("3")), Single("n", F("1")),
   Single("list", L(<<Mk2("$match", Single("id", F("2")), "v", S("E"))>>)), Single("list", L(<<Mk2("$match", Single("id", I("2")), "v", S("E"))>>)),
   Single("list", L(<<Single("$delete", Single("id", F("1")))>>)),
-  Mk2("$match", Single("w", F("3")), "hit", True), Mk2("$match", Single("w", I("3")), "hit", True)
+  Mk2("$match", Single("w", F("3")), "hit", True), Mk2("$match", Single("w", I("3")), "hit", True),
+  Single("grid", L(<<Single("$delete", L(<<I("3")>>))>>)), Single("grid", L(<<Single("$delete", L(<<F("2.5")>>))>>)),
+  Single("grid", L(<<Single("$delete", L(<<I("5")>>))>>)),
+  Mk2("$match", Single("grid", L(<<L(<<I("4")>>)>>)), "hit", True), Mk2("$match", Single("grid", L(<<L(<<F("4")>>)>>)), "hit", True)
 }
 Thirds04 == { Single("$repeat", I("3")), Single("n", I("2")), Single("list", L(<<Single("$delete", Single("id", I("2147483648")))>>)) }
 Fmts04 == {"json", "yaml", "toml"}
